@@ -276,7 +276,11 @@ impl BitFont {
 
         // glyphs
         for i in 0..self.length {
-            data.extend(&self.get_glyph(unsafe { char::from_u32_unchecked(i as u32) }).unwrap().data);
+            // the declared length of a loaded font can exceed its glyph table (it stops at the surrogates)
+            let Some(glyph) = char::from_u32(i as u32).and_then(|ch| self.get_glyph(ch)) else {
+                return Err(FontError::LengthMismatch(self.glyphs.len(), self.length.max(0) as usize).into());
+            };
+            data.extend(&glyph.data);
         }
 
         Ok(data)
